@@ -21,7 +21,7 @@ func init() {
 		Rule: "RateLimitedAttester.VerifyRequest on honest requests (made by pat-go's client and by the harness's own signer), every single-bit flip of every field of one honest request per client (request key, name key id, ciphertext, signature, blind, client key: exhaustive; every fourth flip also on a request object decoded from the wire and marshalled before the tampering, so a stale encoding cache cannot stand in for the fields), signatures by unrelated keys, signatures of other requests, (r, N-s), r or s in {0, N}, wrong/shifted blinds, leading-zero blinds, wrong or malformed client and request keys. " +
 			"Oracle: accept iff crypto/ecdsa.Verify(request key, SHA-384(type||request_key||name_key_id||len16||ciphertext), r, s) and request_key == compress(hash_to_field-blind(client key, blind, 0x0003||\"ClientBlind\")) computed by the reference; on reject: non-nil error, zero Put calls and every cached state snapshot unchanged; on accept: state is registered for this client only and no other client's snapshot changes. " +
 			"distinct_nontrivial = distinct (case class, field, bit) keys",
-		Floors:      []string{"accept_agree", "reject_agree", "reject_bad_signature", "reject_key_mismatch", "reject_malformed_key", "bitflips", "tampered_after_marshal", "tampered_after_original_accepted", "state_unchanged_on_reject", "state_registered_on_accept", "stream_accept_agree", "stream_reject_agree", "double_faults", "long_encrypted_requests"},
+		Floors:      []string{"oversized_structures_never_accepted", "accept_agree_with_a_cache_that_keeps_nothing", "accept_agree", "reject_agree", "reject_bad_signature", "reject_key_mismatch", "reject_malformed_key", "bitflips", "tampered_after_marshal", "tampered_after_original_accepted", "state_unchanged_on_reject", "state_registered_on_accept", "stream_accept_agree", "stream_reject_agree", "double_faults", "long_encrypted_requests"},
 		Assumptions: []string{"request structs have the shapes the wire decoder produces (49/32/1..65535/96 bytes)", "crypto/ecdsa and crypto/elliptic of the Go standard library are the reference"},
 		Run:         runC06,
 	})
@@ -220,6 +220,55 @@ func (w *c06World) call(cs *c06Case) {
 		return
 	}
 	c.Class("state_registered_on_accept")
+	// the same authentic request before an attester whose cache keeps nothing (a bounded cache under pressure): the call
+	// returns, with the same verdict
+	var err2 error
+	pan, pv, where = core.Guard(func() {
+		err2 = type3.NewRateLimitedAttester(forgetfulCache{}).VerifyRequest(cs.req, cs.blind, cs.clientKey, []byte("anon"))
+	})
+	if pan {
+		c.Violation("VerifyRequest:forgetful-cache:panic:"+where, "VerifyRequest panicked with a cache that keeps nothing: "+pv, d)
+	} else if err2 != nil {
+		c.Violation("VerifyRequest:forgetful-cache:rejected-authentic", "an authentic request is rejected by an attester whose cache keeps nothing: "+err2.Error(), d)
+	} else {
+		c.Class("accept_agree_with_a_cache_that_keeps_nothing")
+	}
+}
+
+// forgetfulCache is a ClientStateCache that never has anything: every Put is dropped.
+type forgetfulCache struct{}
+
+func (forgetfulCache) Get(string) (*type3.ClientState, bool) { return nil, false }
+func (forgetfulCache) Put(string, *type3.ClientState)        {}
+
+// oversized builds request structures no decoder can produce (a field longer than its 16-bit length prefix allows)
+// around an honest request and a signature that does not cover them. What the attester does with such a structure is
+// not judged (the unchanged code fails inside the encoder), except for one thing: it is never ACCEPTED, and never
+// leaves state behind.
+func (w *c06World) oversized(h *c06Honest, r *core.Rand) {
+	c := w.c
+	for _, n := range []int{65536, 65537, 70000, 131072} {
+		for _, sig := range [][]byte{r.Bytes(96), clone(h.sig), make([]byte, 96), {}} {
+			cs := h.mk(fmt.Sprintf("oversized-ciphertext-%d", n))
+			cs.req.EncryptedTokenRequest = r.Bytes(n)
+			cs.req.Signature = sig
+			cache := newMemCache()
+			att := type3.NewRateLimitedAttester(cache)
+			var err error
+			c.Eval(1)
+			pan, _, _ := core.Guard(func() { err = att.VerifyRequest(cs.req, cs.blind, cs.clientKey, []byte("anon")) })
+			d := map[string]any{"class": cs.class, "ciphertext_len": n, "signature": core.Hex(sig)}
+			if !pan && err == nil {
+				c.Violation("VerifyRequest:accepted-unauthentic:oversized-structure", "the attester accepted a request structure with an oversized field and a signature that does not cover it", d)
+				return
+			}
+			if len(cache.m) != 0 {
+				c.Violation("VerifyRequest:state-changed-on-reject:oversized-structure", "a request structure that was not accepted left client state behind", d)
+				return
+			}
+			c.Class("oversized_structures_never_accepted")
+		}
+	}
 }
 
 // preRegister puts two clients with one binding each into the cache through the public API.
@@ -328,6 +377,9 @@ func runC06(c *core.Ctx) {
 	for ci := 0; ci < nClients; ci++ {
 		hr := c.IdxRng("flipbase", int64(ci))
 		h := c06MkHonest(hr, secrets[ci], blinds[ci%len(blinds)], 291)
+		if ci == 0 && c.Next() {
+			w.oversized(h, hr)
+		}
 		fields := []struct {
 			name string
 			get  func(cs *c06Case) *[]byte
